@@ -478,4 +478,57 @@ def fromScript (ctx : Ctx) (keyOfHash : Bytes → Option Key) (script : Bytes) :
         else if !(typeOf ctx node).B then none
         else some node
 
+/-! ### the entry list of a compiled expression, in the order the decoder reads it -/
+
+/-- what `_decomposed` answers for `compile n`, last op code first: VERIFY forms unfolded
+    (`OP_CHECKSIGVERIFY` is `OP_CHECKSIG, OP_VERIFY`), a key under the op code that pushes it. -/
+def rents (h160 : Bytes → Bytes) : Ms → List Entry
+  | .f0 => [(OP_0, [])]
+  | .f1 => [(OP_1, [1])]
+  | .pk_k k => [(UInt8.ofNat k.length, k)]
+  | .pk_h k =>
+    [(OP_VERIFY, []), (OP_EQUAL, []), (UInt8.ofNat (h160 k).length, h160 k), (OP_HASH160, []), (OP_DUP, [])]
+  | .wrap .c x => (OP_CHECKSIG, []) :: rents h160 x
+  | .wrap .n x => (OP_0NOTEQUAL, []) :: rents h160 x
+  | .wrap .v x => (OP_VERIFY, []) :: rents h160 x
+  | .wrap .a x => (OP_FROMALTSTACK, []) :: (rents h160 x ++ [(OP_TOALTSTACK, [])])
+  | .wrap .s x => rents h160 x ++ [(OP_SWAP, [])]
+  | .wrap .d x => (OP_ENDIF, []) :: (rents h160 x ++ [(OP_IF, []), (OP_DUP, [])])
+  | .wrap .j x => (OP_ENDIF, []) :: (rents h160 x ++ [(OP_IF, []), (OP_0NOTEQUAL, []), (OP_SIZE, [])])
+  | .bin .and_v x y => rents h160 y ++ rents h160 x
+  | .bin .and_b x y => (OP_BOOLAND, []) :: (rents h160 y ++ rents h160 x)
+  | .bin .or_b x y => (OP_BOOLOR, []) :: (rents h160 y ++ rents h160 x)
+  | .bin .or_c x z => (OP_ENDIF, []) :: (rents h160 z ++ (OP_NOTIF, []) :: rents h160 x)
+  | .bin .or_d x z => (OP_ENDIF, []) :: (rents h160 z ++ (OP_NOTIF, []) :: (OP_IFDUP, []) :: rents h160 x)
+  | .bin .or_i x z => (OP_ENDIF, []) :: (rents h160 z ++ (OP_ELSE, []) :: (rents h160 x ++ [(OP_IF, [])]))
+  | .andor x y z =>
+    (OP_ENDIF, []) :: (rents h160 y ++ (OP_ELSE, []) :: (rents h160 z ++ (OP_NOTIF, []) :: rents h160 x))
+  | _ => []
+
+/-- how an expression is read: by `_single` alone; by `_single` then `_maybe_and_v` (so that it may
+    be an `and_v` chain); by `_wrapped` (an `a:` or `s:`). -/
+inductive Mode | unit | seq | w
+  deriving DecidableEq
+
+/-- the fragment set of the read-back theorem: 0, 1, pk_k, pk_h, the seven wrappers, and_v, and_b,
+    or_b, or_c, or_d, or_i, andor — with `and_v` chains nested to the LEFT (`and_v(and_v(A,B),C)`:
+    what the decoder builds for `[A] [B] [C]`) and standing where the decoder looks for one (a
+    branch closed by ENDIF, the argument of `a:`/`s:`/`d:`/`j:`, the whole script); `a:`/`s:` in the
+    second place of and_b/or_b. -/
+def rd : Mode → Ms → Bool
+  | m, .f0 | m, .f1 | m, .pk_k _ | m, .pk_h _ => m != .w
+  | m, .wrap w x =>
+    match w with
+    | .c | .n | .v => m != .w && rd .unit x
+    | .d | .j => m != .w && rd .seq x
+    | .a | .s => m == .w && rd .seq x
+  | m, .bin b x y =>
+    match b with
+    | .and_v => m == .seq && rd .seq x && rd .unit y
+    | .and_b | .or_b => m != .w && rd .unit x && rd .w y
+    | .or_c | .or_d => m != .w && rd .unit x && rd .seq y
+    | .or_i => m != .w && rd .seq x && rd .seq y
+  | m, .andor x y z => m != .w && rd .unit x && rd .seq y && rd .seq z
+  | _, _ => false
+
 end Btc.Miniscript.Decode
